@@ -954,13 +954,16 @@ def check_c08_walk(ctx, walks, stats, impl=None):
         pos = s            # next address that must be printed
         i = 0
         merge_counts(stats, "walk_lines", len(ls))
+        heads = sum(1 for a, c in ls if not c)          # every instruction line owns one dis answer
+        lens_w, hi = lens[k:k + heads], 0
+        k += heads
         while i < len(ls) and bad is None:
             a, cont = ls[i]
             if cont:
                 bad = "continuation line %x without an instruction line" % a
                 break
-            n = lens[k]
-            k += 1
+            n = lens_w[hi]
+            hi += 1
             if a != pos:
                 bad = "address %x printed where %x is due" % (a, pos)
                 break
@@ -973,10 +976,6 @@ def check_c08_walk(ctx, walks, stats, impl=None):
                     bad = "byte %x of the %d-byte instruction at %x is not listed" % (a + j, n, a)
                     break
             pos = a + n
-            i += 1
-        while i < len(ls):
-            if not ls[i][1]:
-                k += 1
             i += 1
         if bad is None and pos <= e:
             bad = "the walk stopped at %x before the end of the range %x" % (pos, e)
